@@ -93,6 +93,15 @@ func runWithdraw(ctx *action.Context, signedTx action.RawTx) (bool, action.Respo
 		}
 	}
 
+	// the amount must be a non-negative amount of a known currency
+	if !withdrawProposal.WithdrawValue.IsValid(ctx.Currencies) {
+		result := action.Response{
+			Events: action.GetEvent(withdrawProposal.Tags(), "withdraw_proposal_invalid_amount"),
+			Log:    action.ErrInvalidAmount.Marshal(),
+		}
+		return false, result
+	}
+
 	// 1. Check if Proposal already exists, if so, check the withdraw requirement:
 	//    a. if the proposal outcome is cancelled or insufficient funds
 	//    or
